@@ -179,7 +179,8 @@ def oracle_generator(case, impl, m=None):
             bad.append(('rho/sample', 'initial infected nodes not drawn as random.sample(all nodes that are not initially recovered, %d): %r' % (k, e))); return bad
         if k > len(want):
             return bad
-        r = int(draws[di - 1]) % max(1, len(want))
+        r = int(draws[di - 1])
+        if r >= len(want): r = 0        # as simrun.Scripted.sample / exec's rotate
         pop = sorted(e[2]); I0 = [x[0] for x in (pop[r:] + pop[:r])[:k]]
     else:
         I0 = [im[u] for u in case['i0']]
